@@ -18,6 +18,7 @@ import (
 	"github.com/btcsuite/btcd/rpcclient"
 	"github.com/btcsuite/btcd/wire/v2"
 	"github.com/lightninglabs/neutrino"
+	"github.com/lightninglabs/neutrino/blockntfns"
 	"github.com/lightninglabs/neutrino/headerfs"
 
 	"verif/internal/chaingen"
@@ -702,6 +703,65 @@ func (e *env) subscribeRead(from uint32, readNow bool, kind string) {
 			n++
 		}
 		return fmt.Errorf("channel closed after %d notifications", n), ""
+	})
+}
+
+// subscribeHistory makes several direct subscriptions one after the other,
+// cancels some of the OLDER ones while newer ones stay alive, makes more, and
+// keeps a reader blocked on EVERY live one: each of them must see its channel
+// closed once Stop returned (caller-blocked rule). The oldest subscription of
+// the first group is always cancelled and its newest never, so every history
+// has a later subscription registered after an older one left; how many, which
+// and from where vary with the scenario's random stream.
+func (e *env) subscribeHistory(kind string) {
+	nA := 2 + e.w.Rng.Intn(3)
+	mask := e.w.Rng.Intn(1<<(nA-1)) | 1
+	nB := 1 + e.w.Rng.Intn(3)
+	var froms []uint32
+	for i := 0; i < nA+nB; i++ {
+		f := uint32(0)
+		if e.w.Rng.Intn(3) == 0 && e.tip != nil && e.tip.Height > 2 {
+			f = uint32(e.tip.Height - 1 - int32(e.w.Rng.Intn(2)))
+		}
+		froms = append(froms, f)
+	}
+	e.res.Count("subscription_histories_with_an_older_subscription_cancelled_before_a_later_one", 1)
+	read := func(sub *blockntfns.Subscription) (error, string) {
+		n := 0
+		for range sub.Notifications {
+			n++
+		}
+		return fmt.Errorf("channel closed after %d notifications", n), ""
+	}
+	e.launch(kind, fmt.Sprintf("history: %d subscriptions (from %v), cancel mask %b of them, then %d more; reading the newest", nA, froms[:nA], mask, nB), func() (error, string) {
+		var live []*blockntfns.Subscription
+		for i := 0; i < nA; i++ {
+			sub, err := e.src.Subscribe(froms[i])
+			if err != nil {
+				return err, ""
+			}
+			live = append(live, sub)
+		}
+		var kept []*blockntfns.Subscription
+		for i, sub := range live {
+			if i < nA-1 && mask&(1<<i) != 0 {
+				sub.Cancel()
+			} else {
+				kept = append(kept, sub)
+			}
+		}
+		for i := 0; i < nB; i++ {
+			sub, err := e.src.Subscribe(froms[nA+i])
+			if err != nil {
+				return err, ""
+			}
+			kept = append(kept, sub)
+		}
+		for i, sub := range kept[:len(kept)-1] {
+			sub := sub
+			e.launch(kind, fmt.Sprintf("live subscription %d of %d of a history", i+1, len(kept)), func() (error, string) { return read(sub) })
+		}
+		return read(kept[len(kept)-1])
 	})
 }
 
@@ -1400,6 +1460,7 @@ func (e *env) startInflight(early bool) {
 			}
 		case CSubRead:
 			e.subscribeRead(0, true, CSubRead)
+			e.subscribeHistory(CSubRead)
 		case CSubscribe:
 			if p.State == StSubs {
 				e.subscribeRead(1, false, CSubscribe)
